@@ -28,7 +28,7 @@ class SType:
         return f"SType({self.ref})"
 
 
-NUMERIC_PY = ("int", "float", "bool", "num")
+NUMERIC_PY = ("int", "float", "bool", "num", "pynum")
 NP_UFUNCS = {
     "numpy.negative": "neg", "numpy.abs": "abs", "numpy.absolute": "abs", "numpy.sin": "sin", "numpy.cos": "cos",
     "numpy.tan": "tan", "numpy.exp": "exp", "numpy.log": "log", "numpy.log2": "log2", "numpy.log10": "log10",
@@ -256,6 +256,8 @@ class Models:
             return "float"
         if "float" in (a, b):
             return "float"
+        if "pynum" in (a, b):
+            return "pynum"
         if "num" in (a, b):
             return "num"
         return "int"
@@ -424,7 +426,7 @@ class Models:
 
     def np_scalar(self, v):
         """Elements taking part in NumPy arithmetic behave as NumPy scalars (no ZeroDivisionError)."""
-        if isinstance(v, SReal) and v.pytype in ("float", "int", "num", "bool"):
+        if isinstance(v, SReal) and v.pytype in ("float", "int", "num", "bool", "pynum"):
             return SReal(v.t, "npfloat")
         if isinstance(v, SInt):
             return SReal(sym.to_real(v.t), "npfloat")
@@ -453,7 +455,11 @@ class Models:
             return SReal(sym.zabs(t), "npfloat")
         if opname == "sign":
             return SReal(z3.If(t > 0, sym.rv(1), z3.If(t < 0, sym.rv(-1), sym.rv(0))), "npfloat")
-        return SReal(sym.UF[opname](t), "npfloat")
+        res = sym.UF[opname](t)
+        hook = getattr(ip.schema, "uf_hook", None)
+        if hook is not None:
+            hook(ip, opname, t, res)
+        return SReal(res, "npfloat")
 
     # sums: PSUM(array, n) with unfolding instances supplied by pyvc.spec
     def sum_of(self, ip, v):
